@@ -731,6 +731,10 @@ def search(run, deep):
         if why:
             run.fail_input("history", {"steps": seq, "rng_state": repr(state)}, observed=why,
                            what="query/mutate/query history %s: %s" % (seq, why))
+        inp3, why3 = rebuild_case(run)
+        run.case(("rebuild", str(inp3)[:80]), nontrivial=True)
+        if why3:
+            run.fail_input("rebuild", inp3, observed=why3, what=why3)
         inp2, why2 = default_trigger_case(run)
         run.case(("default-trigger-strict-subs", str(inp2)[:80]), nontrivial=True)
         if why2:
@@ -956,6 +960,54 @@ def default_trigger_case(run):
         if got != want:
             return dict(inp, require_mc_truth=mc), ("default trigger of a detector of strict sub-detectors is %s although %s antenna is hit"
                                                     % (got, "some" if want else "no"))
+    return inp, None
+
+
+def rebuild_case(run):
+    """build_antennas is re-run after the planned positions of a base-level detector changed (shortened, lengthened,
+    replaced): the detector then holds exactly the antennas of the LAST build, one per current position, in order"""
+    pyrex = _pyrex()
+
+    class Str(pyrex.Detector):
+        def set_positions(self, n, x):
+            self.antenna_positions = [(x, 0.0, -10.0 - 5 * i) for i in range(n)]
+
+    class Station(pyrex.Detector):
+        def set_positions(self, ns):
+            self.subsets = [Str(n, float(j)) for j, n in enumerate(ns)]
+    ns = [run.rng.randint(1, 4) for _ in range(run.rng.randint(1, 3))]
+    shape = run.rng.choice(["string", "station", "combined"])
+    if shape == "string":
+        det = Str(ns[0], 0.0); strings = [det]
+    elif shape == "station":
+        det = Station(ns); strings = list(det.subsets)
+    else:
+        strings = [Str(n, float(j)) for j, n in enumerate(ns)]
+        det = strings[0] + strings[1] if len(strings) > 1 else strings[0] + Str(1, 9.0)
+        strings = [s_ for s_ in det.subsets if isinstance(s_, Str)]
+    det.build_antennas(antenna_class=pyrex.Antenna, noisy=False)
+    first = [id(a) for a in det]
+    steps = []
+    for _ in range(run.rng.randint(1, 2)):
+        st_ = run.rng.choice(strings)
+        n_old = len(st_.antenna_positions)
+        how = run.rng.choice(["shorten", "shorten", "lengthen", "replace"])
+        if how == "shorten" and n_old > 1:
+            st_.antenna_positions = st_.antenna_positions[:run.rng.randint(1, n_old - 1)]
+        elif how == "lengthen":
+            st_.antenna_positions = list(st_.antenna_positions) + [(7.0, 7.0, -200.0 - n_old)]
+        else:
+            st_.antenna_positions = [(p_[0], 3.0, p_[2] - 1.0) for p_ in st_.antenna_positions]
+        steps.append((how, n_old, len(st_.antenna_positions)))
+        det.build_antennas(antenna_class=pyrex.Antenna, noisy=False)
+    want = [tuple(float(v) for v in p_) for s_ in strings for p_ in s_.antenna_positions]
+    got = [tuple(float(v) for v in a.position) for a in det]
+    inp = {"shape": shape, "strings": ns, "steps": steps}
+    if len(det) != len(want) or got != want:
+        return inp, "after re-building, the detector holds %d antennas at %s; its strings plan %d positions %s" % (
+            len(det), got[:6], len(want), want[:6])
+    if any(det[i] is not list(det)[i] for i in range(len(det))):
+        return inp, "indexing and iteration disagree after a re-build"
     return inp, None
 
 
